@@ -5,6 +5,7 @@ import CuqiVerif.Model.C09_tune
 import CuqiVerif.Model.C09_strategy
 import CuqiVerif.Model.C09_shape
 import CuqiVerif.Model.C09_array
+import CuqiVerif.Model.C09_nuts
 open CuqiVerif CuqiVerif.Proto CuqiVerif.C09
 
 /-!
@@ -28,6 +29,9 @@ open CuqiVerif CuqiVerif.Proto CuqiVerif.C09
      INITPTS `-;1,2;-`           `init_point` attribute of the block's density (`-` = absent)
      CALLS   `3:2,4:0`           `sample(Ns, Nb)` calls
      DRAWS   `1;2,3;…`           value returned by each `sampler.step(x)` in call order
+  `nt ISNUTS STATE HISTORY ASSIGNED DEFAULTS ATTRS`  origin of every attribute after the per-sweep protocol (Model/C09_nuts.lean)
+     lists `a,b,c` / `.`; output `attr=prev|point|fresh|dflt|unset,…`;  `nt nuts ATTRS` uses the model's own table for NUTS and
+     also prints its `_STATE_KEYS|_HISTORY_KEYS`
   `ar DIM OPS`                    one block's sample array of legacy Gibbs (Model/C09_array.lean)
      OPS      `A3;S0:1,2;S1:3,4;L;A2;S3:5,6`  `A<Ns>` = `_allocate_samples(Ns)`, `S<i>:<v>` = `samples[:, i] = v`, `L` = `samples[:, -1]`
      output   `<result of every L: vector / IndexError / absent>;…|<dim>x<width>:<rows>` (`absent` = no attribute `samples`)
@@ -39,6 +43,15 @@ open CuqiVerif CuqiVerif.Proto CuqiVerif.C09
      STRATEGY `d+l=0;x=1;(q)=2`  keys in dictionary order: `a+b` = tuple key `('a','b')`, `(a)` = 1-tuple `('a',)`, plain name; `=id` of the sampler
      NAMES    `d,l,x`            par_names
      output   `<id or ->,…|<outcome of the first sweep: ok:<k blocks advanced> / KeyError:<k>:<name>>`
+  `tv N PROBE CUR DATA FACTOR…`   VALUE of the object handed to block N at PROBE (Model/C09_target.lean + Model/C01.lean, leaf
+                                 log-densities from the table recorded on the real densities)
+     CUR / DATA `k=v&k=v` / `.`  current values of all blocks / observed data (values: rational vectors)
+     FACTOR   `name;dim;params;table`  params `a,b` / `.`; table `v0&v1&…=val|…` = log-density of the unconditioned density at the
+                                 values of `name :: params`
+     output   `ok|<class>|<logd>` / `?` (a leaf outside the table) / `err|Class`
+  `tc FACTORS DATA`               class of the sampler's target and what the constructors make of it (validate_targets & co.)
+     output   `<class>|H0=<ok/AttributeError/ValueError>|H1=…|L=…|<n>:<dim of the geometry get_samples wraps n in>,…`
+              (H0: some sampler without initial_point, H1: all given, L: legacy first sample call)
   `tg FACTORS DATA`               the objects handed to the block samplers (Model/C09_target.lean on top of Model/C01.lean)
      FACTORS `d:1:.|x:3:d|y:4:x+l|l:1:.`  the densities of the user's JointDistribution in order: name:dim:conditioning variables
      DATA    `y` / `.`            the variables the user conditioned on (observed data)
@@ -192,6 +205,59 @@ def runLG (names : List String) (ipts : List (Option Val)) (dims : List Nat) (ca
     else
       " ".intercalate (g.log.map fmtLEv) ++ s!" # {g.pos} {tail} # " ++ fmtCols names g.samples ++ " # " ++ fmtCols names g.warm
 
+/-! ### `tv`: value of the handed target through the C01 model on recorded leaf log-densities -/
+
+/-- log-density value with a counter of leaf look-ups outside the table -/
+structure LV where
+  v : Rat
+  miss : Nat
+
+instance : Add LV := ⟨fun a b => ⟨a.v + b.v, a.miss + b.miss⟩⟩
+instance : Zero LV := ⟨⟨0, 0⟩⟩
+
+def parseKwV (s : String) : Option (C01.Kw Val) :=
+  if s = "." then some [] else
+    (s.splitOn "&").mapM (fun e => match e.splitOn "=" with
+      | [k, v] => (fun x => (k, x)) <$> parseVec v
+      | _ => none)
+
+def parseTblEntry (s : String) : Option (List Val × Rat) :=
+  match s.splitOn "=" with
+  | [ks, v] => do
+    let keys ← (ks.splitOn "&").mapM parseVec
+    let r ← parseRat v
+    pure (keys, r)
+  | _ => none
+
+def tblGet : List (List Val × Rat) → List Val → Option Rat
+  | [], _ => none
+  | (k, v) :: r, key => if k = key then some v else tblGet r key
+
+def parseFactorV (s : String) : Option (C01.Factor Val LV) :=
+  match s.splitOn ";" with
+  | [name, dim, params, tbl] => do
+    let d ← dim.toNat?
+    let ps := if params = "." then [] else params.splitOn ","
+    let t ← (if tbl = "." then some [] else (tbl.splitOn "|").mapM parseTblEntry)
+    pure { name := name, params := ps, dim := d,
+           f := fun env => match (name :: ps).mapM env with
+             | none => ⟨0, 1⟩
+             | some key => match tblGet t key with
+               | some r => ⟨r, 0⟩
+               | none => ⟨0, 1⟩ }
+  | _ => none
+
+def runTV (n : String) (probe : Val) (cur data : C01.Kw Val) (fs : List (C01.Factor Val LV)) : String :=
+  match gibbsTarget fs data with
+  | .error e => "err|" ++ e.toString
+  | .ok P =>
+    match handed P (fun m => (C01.kwGet cur m).getD []) n with
+    | .error e => "err|" ++ e.toString
+    | .ok o =>
+      match o.logd [probe] [] with
+      | .error e => "err|" ++ e.toString
+      | .ok r => if r.miss = 0 then "ok|" ++ o.kind ++ "|" ++ fmtRat r.v else "?"
+
 /-! ### `tg`: structure of the handed targets -/
 
 def descNames (l : List String) : String := if l.isEmpty then "." else "+".intercalate l
@@ -224,6 +290,13 @@ def runTG (fs : List (C01.Factor Val Rat)) (data : List String) : String :=
       String.join (hs.map (fun p => "|" ++ p.1 ++ "=" ++ (match p.2 with
         | .ok o => descObj o
         | .error e => "err:" ++ e.toString)))
+
+/-! ### `nt`: kept / lost attributes -/
+
+def fmtOrigin : Origin → String
+  | .prev => "prev" | .point => "point" | .fresh => "fresh" | .dflt => "dflt" | .unset => "unset"
+
+def parseNameList (s : String) : List String := if s = "." then [] else s.splitOn ","
 
 /-! ### `ar`: one block's legacy sample array -/
 
@@ -306,7 +379,35 @@ def runLS (strategy : List (SKey String × Nat)) (names : List String) : String 
     | .error s => s!"KeyError:{s.2.1}:{names.getD s.2.1 "?"}"
   ",".intercalate ids ++ "|" ++ out
 
+def fmtCErr : Option CErr → String
+  | none => "ok" | some .attributeError => "AttributeError" | some .valueError => "ValueError"
+
+def runTC (fs : List (C01.Factor Val Rat)) (data : List String) : String :=
+  match gibbsTarget fs (data.map (fun n => (n, ([] : Val)))) with
+  | .error e => "err|" ++ e.toString
+  | .ok P =>
+    P.kind ++ "|H0=" ++ fmtCErr (hybridTargetVerdict P false) ++ "|H1=" ++ fmtCErr (hybridTargetVerdict P true)
+      ++ "|L=" ++ fmtCErr (legacyTargetVerdict P) ++ "|" ++
+      ",".intercalate ((parNames P).map (fun n => n ++ ":" ++ (match samplesGeometryDim P n with
+        | some d => toString d | none => "-")))
+
 def step : List String → String
+  | ["tc", factors, data] =>
+    match (factors.splitOn "|").mapM parseFactor with
+    | some fs => runTC fs (if data = "." then [] else data.splitOn ",")
+    | none => "bad-op"
+  | ["nt", "nuts", attrs] =>
+    ",".intercalate nutsStateKeys ++ "|" ++ ",".intercalate nutsHistoryKeys ++ "|" ++
+      ",".intercalate ((parseNameList attrs).map (fun a => a ++ "=" ++ fmtOrigin (nutsOrigin a)))
+  | ["nt", isNuts, st, hi, asg, dfl, attrs] =>
+    if isNuts != "0" && isNuts != "1" then "bad-op"
+    else ",".intercalate ((parseNameList attrs).map (fun a =>
+      a ++ "=" ++ fmtOrigin (originAfterPrologue (isNuts == "1") (parseNameList st) (parseNameList hi)
+        (parseNameList asg) (parseNameList dfl) a)))
+  | "tv" :: n :: probe :: cur :: data :: factors =>
+    match parseVec probe, parseKwV cur, parseKwV data, factors.mapM parseFactorV with
+    | some p, some c, some d, some fs => runTV n p c d fs
+    | _, _, _, _ => "bad-op"
   | ["ar", dim, ops] =>
     match dim.toNat?, (ops.splitOn ";").mapM parseAOp with
     | some d, some os => if d = 0 then "bad-op" else runAR d os none []
